@@ -168,6 +168,18 @@ def run(tier):
             want = {tuple(b) for b in c["bonds"]}       # 1-based index pairs i<j
             bond_sets.add((tuple(els), tuple(sorted(want))))
             variants = [("identity", base, list(range(na)))]
+            if c.get("cut1000"):
+                # all-element pair mode: additionally a pair just inside / just outside the cutoff (2e-5 A: far above the
+                # rounding error of differences of doubles up to 1e6), placed far away from the origin
+                cut = c["cut1000"] / 1000.0
+                inside = bool(c["bonds"])
+                d = cut - 2e-5 if inside else cut + 2e-5
+                u = np.array([rnd.gauss(0, 1) for _ in range(3)])
+                u /= np.linalg.norm(u)
+                for T in (0.0, 1.0e3, 1.0e5, float(2**20) * 0.9):
+                    t = np.array([T, -T / 3.0, T / 7.0])
+                    near = np.array([t, t + u * d])
+                    variants.append((f"near-cutoff@{int(T)}", near, [0, 1]))
             R = rots[rnd.randrange(24)]
             variants.append(("lattice-rotation", base @ R.T, list(range(na))))
             variants.append(("translation", base + np.array([rnd.randint(-500, 500) / 100.0 for _ in range(3)]), list(range(na))))
